@@ -486,6 +486,12 @@ func (d *Director) update(a *Actor, reported []string, block uint64, oldFormat b
 	op := fmt.Sprintf("#%d update(%s peers=%v)", d.n, a.Name, w.names(reported))
 	led := d.ledger()
 	balBefore := d.balances()
+	creditBefore := map[string]*big.Int{}
+	for _, x := range w.Actors {
+		if _, c, e := w.NodeCredit(x.ID); e == nil {
+			creditBefore[x.ID] = c
+		}
+	}
 	var seenBefore time.Time
 	if n, e := w.Inner.GetNode(store.NodeID(a.ID)); e == nil {
 		seenBefore = n.LastSeen
@@ -536,6 +542,36 @@ func (d *Director) update(a *Actor, reported []string, block uint64, oldFormat b
 		// the credit of one peer could not be written
 		if after := d.ledger(); after.getters.Cmp(led.getters) != 0 {
 			d.W.S.Violate("exact_sum", "an accepted keep-alive debited the client by something other than the sum credited to its peers", "%s: credit sum went from %s to %s; balances:\n%s", op, led.getters, after.getters, diffLines(balBefore, d.balances()))
+		}
+		// ... and an accepted keep-alive credits each tracked peer, not some of them (judged where nobody involved
+		// shares a balance with anybody else involved)
+		if ps, e := w.Inner.NodePeers(store.NodeID(a.ID)); e == nil && !a.IsHost && len(ps) > 1 {
+			ids := []store.NodeID{store.NodeID(a.ID)}
+			for _, p := range ps {
+				ids = append(ids, p.ID)
+			}
+			shared := false
+			for i := range ids {
+				for j := i + 1; j < len(ids); j++ {
+					shared = shared || d.sameBalance(ids[i], ids[j])
+				}
+			}
+			var paid, unpaid []string
+			for _, p := range ps {
+				_, c, e := w.NodeCredit(string(p.ID))
+				if e != nil || creditBefore[string(p.ID)] == nil {
+					shared = true
+					continue
+				}
+				if c.Cmp(creditBefore[string(p.ID)]) == 0 {
+					unpaid = append(unpaid, w.N(string(p.ID)))
+				} else {
+					paid = append(paid, w.N(string(p.ID)))
+				}
+			}
+			if !shared && len(paid) > 0 && len(unpaid) > 0 {
+				d.W.S.Violate("all_or_nothing", "an accepted keep-alive credited some of the client's peers and not the others", "%s -> %v: credited %v, not credited %v (their time is never billed: the client's check-in has moved on)", op, err, paid, unpaid)
+			}
 		}
 	}
 	if isVerifyFailed(err) {
@@ -679,6 +715,9 @@ func creditFor(elapsed time.Duration, price *big.Int, interval time.Duration) *b
 	if interval <= 0 {
 		return new(big.Int)
 	}
+	if elapsed <= 0 {
+		return new(big.Int) // no time has passed (the check-in lies ahead of the clock): nothing moves
+	}
 	c := new(big.Int).Mul(big.NewInt(int64(elapsed)), price)
 	return c.Quo(c, big.NewInt(int64(interval))) // elapsed and interval >= 0: Quo = floor
 }
@@ -794,6 +833,28 @@ func (d *Director) Advance(g time.Duration) {
 	}
 	d.W.S.Sleep(d.name, g)
 	d.logf("#%d advance %s", d.n, g)
+}
+
+// ClockBack makes the pool's clock lie behind a node's last check-in by the given amount, as after the wall clock was
+// stepped back. (The simulated clock cannot go backwards; the check-in is moved forwards instead, in the store and in
+// the model. Billing measures from the check-in, so it cannot tell the difference.)
+func (d *Director) ClockBack(a *Actor, by time.Duration) {
+	w := d.W
+	d.n++
+	n, err := w.Inner.GetNode(store.NodeID(a.ID))
+	if err != nil {
+		return
+	}
+	n.LastSeen = time.Now().Add(by)
+	if err := w.Inner.SetNode(*n); err != nil {
+		panic(err)
+	}
+	if rn, err := w.Ref.GetNode(store.NodeID(a.ID)); err == nil {
+		rn.LastSeen = n.LastSeen
+		w.Ref.Nodes[rn.ID] = *rn
+	}
+	w.S.Fault("clock_set_back_behind_a_check_in")
+	d.logf("#%d the clock is set back: the last check-in of %s is now %s ahead of it", d.n, a.Name, by)
 }
 
 // AddNode links a node to a wallet through pool_addNode.
